@@ -85,6 +85,7 @@ pub fn prop() -> HistProp {
             let mut w = Weights::trading();
             w.rewire = 2;
             w.vcfg = 1;
+            w.setopen = 1;
             w
         },
         min_ops: 4,
